@@ -26,7 +26,10 @@ C01-pipe    compute_form_data + preprocess_form are lifted with every pass repla
             complex nodes are removed iff not complex_mode, the comparison check runs iff complex_mode; the
             options given to FormData are the caller's).
 C01-checks  every normal exit of FormData.__init__ has run the element, facet-geometry and arity checks.
-C01-compose (see compose()) the integrand pipeline composed from the lifted passes on symbolic integrands.
+C01-compose compute_form_data interpreted from source together with all integrand passes it calls, on symbolic
+            cell integrands over an affine triangle with symbolic vertices, for the combinations of the integrand-level
+            options: exact equality of meanings (times |detJ|*weight under scaling) and the form each option promises
+            (sa/rules/c01_compose.py, sa/pipeworld.py).
 """
 
 from __future__ import annotations
